@@ -131,15 +131,42 @@ func structForT(fields []depSpec, forOracle bool) reflect.Value {
 			Tag:  reflect.StructTag(tag),
 		})
 	}
-	return reflect.New(reflect.StructOf(sf))
+	ptr := reflect.New(reflect.StructOf(sf))
+	// Every second target arrives PRE-FILLED: its tagged fields hold an object that does not come from the
+	// container (an object built by hand, or injected earlier by another container).  InjectTo must replace
+	// it by the container's instance wherever it resolves the field; a field still holding the foreign
+	// object afterwards counts as untouched, exactly like a nil field.
+	prefillCount++
+	if prefillCount%2 == 0 {
+		for i := range fields {
+			f := ptr.Elem().Field(i + 1)
+			switch {
+			case f.Type() == oObjPtrType:
+				f.Set(reflect.ValueOf(foreignOObj))
+			default:
+				f.Set(reflect.ValueOf(foreignObj))
+			}
+		}
+	}
+	return ptr
 }
+
+var (
+	prefillCount int
+	foreignObj   = &Obj{}
+	foreignOObj  = &oObj{}
+)
 
 func fieldValue(ptr reflect.Value, i int) interface{} {
 	f := ptr.Elem().Field(i + 1)
 	if f.IsNil() {
 		return nil
 	}
-	return f.Interface()
+	v := f.Interface()
+	if v == interface{}(foreignObj) || v == interface{}(foreignOObj) {
+		return nil // the pre-filled foreign object is still there: InjectTo did not touch the field
+	}
+	return v
 }
 
 var errFactory = errors.New("factory says no")
